@@ -1020,7 +1020,10 @@ def _part_lhs(task, rec, only=None):
         perms, _ = perm_alphabet(tot)
         if tot > 5:
             perms = perms[:2] + perms[2::max(1, (len(perms) - 2) // 6)]
-        for tid in TAPES:
+        if task.get('sweep'):
+            # the sweep over EVERY total size up to a bound: identity and reversal as shuffle answers, two tapes
+            perms = perms[:2]
+        for tid in task.get('tapes', TAPES):
             us = [tape_value(tid, j, tot, 0) for j in range(tot)]
             for symmetric in (False, True):
                 todo = list(perms)
@@ -1034,10 +1037,19 @@ def _part_lhs(task, rec, only=None):
                     if only and ({k: only.get(k) for k in case} != case or only.get('form')):
                         continue
                     tape = Tape('mid', perm)
-                    with owned(tape):
-                        out = dr.get_latin_hypercube_draws(n, r, symmetric=symmetric,
-                                                           uniform_numbers=np.array(us, dtype=float))
                     key = ('lhs', n, r, tid, symmetric, repr(perm))
+                    try:
+                        with owned(tape):
+                            out = dr.get_latin_hypercube_draws(n, r, symmetric=symmetric,
+                                                               uniform_numbers=np.array(us, dtype=float))
+                    except Exception as e:       # a size is a legal request: it is answered with an array
+                        rec.case(key, (key, type(e).__name__), outcome=('lhs', symmetric, 'raised'))
+                        rec.violation(f'C11|lhs-generator-explicit-uniforms-raises-{type(e).__name__}|symmetric={symmetric}',
+                                      f'get_latin_hypercube_draws({n}, {r}, symmetric={symmetric}, uniform_numbers=tape {tid}) '
+                                      f'with shuffle answer {perm} raises {type(e).__name__}: {str(e)[:160]}', case,
+                                      expected=f'an ({n}, {r}) array with one point per stratum of {tot}',
+                                      observed=f'{type(e).__name__}: {str(e)[:160]}')
+                        continue
                     got = flat(out)
                     if 'selection-with-replacement' in tape.seams and not extended:
                         # the points were 'shuffled' by a selection WITH replacement: every tuple of indices is a legal
@@ -1074,7 +1086,7 @@ def _part_lhs(task, rec, only=None):
                                       f'construction, one point per stratum, no further RNG call; {detail}', case,
                                       expected=exp[:6], observed=got[:6])
             # ---- the form in which the caller supplies the uniform numbers x the way the function is addressed
-            for form, call in LHS_FORMS:
+            for form, call in ([] if task.get('sweep') else LHS_FORMS):
                 arr0 = lhs_supplied(us, n, r, form)
                 if arr0 is None:
                     rec.count('lhs_form_not_applicable')
@@ -1955,6 +1967,13 @@ def tasks(tier, seed):
                       [0, 1, 2, 3, 9, 10, 11, 24, 25, 26, 124, 125], sizes=small))
     for i in range(0, len(small), 4):
         t.append(dict(part='lhs', sizes=small[i:i + 4]))
+    # "any requested size": every total size 1..T once as (1, T) and, where 7 divides it, as (7, T/7) (the strata are built
+    # from the total number of points: a construction that goes wrong for particular totals - rounding of 1/T - shows here)
+    top = 256 if tier == 'quick' else 1024
+    sweep = [[1, n] for n in range(1, top + 1)] + [[7, n // 7] for n in range(7, top + 1, 7)]
+    sweep = [q for q in sweep if q not in small]
+    for i in range(0, len(sweep), 24):
+        t.append(dict(part='lhs', sizes=sweep[i:i + 24], sweep=True, tapes=['weyl', 'hi']))
     t.append(dict(part='shape', sizes=[[1, 1], [1, 2], [2, 2], [3, 2], [2, 3], [5, 4]]))
     t += hist_tasks(tier)
     nsp = len(special_points())
